@@ -3,7 +3,7 @@
 //! avoids flattening through symbolic-size allocations.
 use std::io::IoSlice;
 
-pub const MAXS: usize = 10;
+pub const MAXS: usize = 6;
 
 /// Byte at logical position `j` of the concatenation of `slices`.
 pub fn byte_at(slices: &[IoSlice<'_>], j: usize) -> Option<u8> {
